@@ -453,8 +453,50 @@ def gen_numeral(r):
     return s
 
 
+# PARSENUM documents: "optional whitespace followed by a number ... and the
+# numeric interpretation of the number is between min and max inclusive" or an
+# error.  (lo, hi, base) of the instantiations in harness/c15_parsers.c; base 0
+# = C prefixes (the numerals of the family below have none).
+U64 = (1 << 64) - 1
+NUM_BOUNDS = [(0, U64, 0), (1, 1000000, 0), (-100, 100, 0), (-(1 << 31), (1 << 31) - 1, 0),
+              (0, (1 << 32) - 1, 0), (0, 70000, 16), (float('-inf'), float('inf'), 0), (-1.5, 1e10, 0),
+              (-1000, 1000, 0), (0, U64, 16), (1, 65535, 10), (0, U64, 0)]
+assert len(NUM_BOUNDS) == NUM_INST
+WSCH = [b' ', b'\t', b'\n', b'\v', b'\f', b'\r']       # the isspace() set of the C locale
+WS_RUNS = [b''] + WSCH + [a + b for a in WSCH for b in WSCH] + [b'\r\n\t ', b' \t\n\v\f\r', b'\n' * 9]
+WS_SIGNS = [b'-', b'+', b'']
+WS_NUMERALS = [0, 1, 5, 42, 100, 101, 65535, 65536, 70001, (1 << 31) - 1, 1 << 31, (1 << 31) + 1, (1 << 32) - 1,
+               1 << 32, (1 << 63) - 1, 1 << 63, (1 << 63) + 1, U64 - 1, U64, U64 + 1, 10 ** 20]
+
+
+def gen_num_ws(idx):
+    """(every whitespace character, every pair) x (sign) x (0, small, near
+    2^31/2^32/2^63/2^64) through every instantiation; idx selects the sign.
+    The value written is known exactly, so a success can be held against the
+    documented bounds even where the C comparison is vacuous (max = UINTMAX_MAX)."""
+    out = []
+    sign = WS_SIGNS[idx]
+    for ws in WS_RUNS:
+        for n in WS_NUMERALS:
+            digits = str(n).encode()
+            s = ws + sign + digits
+            c = mk('humansize_parse', 'H %s' % hx(s), False)
+            c['fam'] = 'numeral_after_whitespace_and_sign'
+            out.append(c)
+            for inst in range(NUM_INST):
+                c = mk('parsenum%d' % inst, 'N %d %s' % (inst, hx(s)), False)
+                c['fam'] = 'numeral_after_whitespace_and_sign'
+                v = int(digits, NUM_BOUNDS[inst][2] or 10)
+                c['numval'] = -v if sign == b'-' else v
+                c['inst'] = inst
+                out.append(c)
+    return out
+
+
 def gen_num(r, idx, scale):
     out = []
+    if 1 <= idx <= 3:
+        return gen_num_ws(idx - 1)
     strs = NUM_SPECIALS if idx == 0 else [gen_numeral(r) for _ in range(60 * scale)]
     for s in strs:
         out.append(mk('humansize_parse', 'H %s' % hx(s), False))
@@ -653,14 +695,17 @@ GO_TOK = [b'-', b'--', b'', b'--=', b'--x=', b'--x', b'--x=v', b'-a', b'-b', b'-
           b'--foo--', b'--=foo', b'-- ', b' --foo', b'-\x01', b'--x==', b'-ff', b'-fff', b'-oo', b'-ao', b'--bar--']
 GO_ARGV0 = [b'prog', b'prog', b'prog', b'', b'/', b'/usr/bin/prog', b'a/', b'-f', b'--foo', b'--', b'-',
             b'/' * 300, b'x' * 300]
-GO_NEEDARG = [b'-f', b'-o', b'--foo', b'--x', LONGOPT, b'-abf', b'-abo', b'-ao']
+GO_NEEDARG = [b'-f', b'-o', b'--foo', b'--x', LONGOPT, b'-abf', b'-abo', b'-ao', b'-bf', b'-bao',
+              b'-' + b'ab' * 100 + b'f']
+GO_MIXED = [(0, 2), (2, 0), (1, 2), (2, 1), (0, 1), (1, 0)]     # (table of the abandoned parse, of the later one)
 
 
 def gen_getopt(r, idx, scale):
     out = []
 
     def t(av, tbl=None, err=None):
-        for tb in ((0, 1) if tbl is None else (tbl,)):
+        tbs = (tbl,) if tbl is not None else (0, 1, 2) if r.random() < 0.25 else (0, 1)
+        for tb in tbs:
             e = r.choice([0, 1]) if err is None else err
             out.append(mk('getopt', 'T %d %d %s' % (tb, e, ' '.join(hx(a) for a in av)) if av
                           else 'T %d %d' % (tb, e), True))
@@ -677,8 +722,11 @@ def gen_getopt(r, idx, scale):
                 t([b'prog', b'-f', tok], err=e)
                 t([b'prog', tok, tok], err=e)
         for na in GO_NEEDARG:
-            for pre in ([], [b'-a'], [b'--bar'], [b'-f', b'v'], [b'--foo=1'], [b'--']):
+            for pre in ([], [b'-a'], [b'--bar'], [b'-f', b'v'], [b'--foo=1'], [b'--'], [b''], [b'-ab', b'--x=', b'-fo']):
                 t([b'prog'] + pre + [na])
+                t([b''] + pre + [na])
+            t([na])                 # argc == 1: the option is argv[0], nothing is parsed
+            t([na, na])
         return out
     for _ in range(350 * scale):
         n = r.choice([0, 1, 2, 2, 3, 3, 4, 5, 6, 7])
@@ -736,6 +784,9 @@ def gen_getopt_seq(r, idx, scale):
                         for av2 in a2s:
                             n += 1
                             t(av1, k, av2, n & 1, (n >> 1) & 1)
+                            if n % 4 == 0:      # tables of different sizes before / after optreset
+                                a, b = GO_MIXED[(n // 4) % len(GO_MIXED)]
+                                t(av1, k, av2, 4 + 3 * a + b, (n >> 3) & 1)
                             if not pre and not post:
                                 t(av1, k, av2, 1 - (n & 1), (n >> 2) & 1)
         return out
@@ -745,7 +796,11 @@ def gen_getopt_seq(r, idx, scale):
         av2 = r.choice(GO_ARGV2) if r.random() < 0.5 else \
             [r.choice(GO_ARGV0)] + [r.choice(GO_TOK + GO_PACKS) for _ in range(r.choice([0, 1, 1, 2, 3]))]
         k = r.choice(ks(av1))
-        t(av1, k, av2, r.choice([0, 1]), r.choice([0, 1]))
+        if r.random() < 0.3:
+            a, b = r.choice(GO_MIXED)
+            t(av1, k, av2, 4 + 3 * a + b, r.choice([0, 1]))
+        else:
+            t(av1, k, av2, r.choice([0, 1, 1, 0, 2]), r.choice([0, 1]))
     return out
 
 
@@ -761,7 +816,7 @@ def units(tier):
     u = []
     u += [('json', i, 1) for i in range(260 if q else 8000)]
     u += [('codec', n, 1 if q else 12) for n in range(0, 34 if q else 49)]
-    u += [('num', i, 1 if q else 4) for i in range(14 if q else 80)]
+    u += [('num', i, 1 if q else 4) for i in range(17 if q else 83)]       # 1..3: whitespace x sign family
     u += [('sock', i, 1 if q else 5) for i in range(6 if q else 40)]
     u += [('deser', i, 1 if q else 10) for i in range(2 if q else 32)]
     u += [('files', i, 1 if q else 6) for i in range(6 if q else 40)]
@@ -807,10 +862,36 @@ def judge(c, ans):
         m = re.search(r'it1=(\d+) mid=(\d+)', ans)
         if m:
             STATS['getopt_reset:sequences'] += 1
+            tb = int(c['line'].split()[1])
+            if tb >= 4 and (tb - 4) // 3 != (tb - 4) % 3:
+                STATS['getopt_reset:table_size_changes_%s' %
+                      ('large_to_small' if (tb - 4) % 3 == 2 else
+                       'small_to_large' if (tb - 4) // 3 == 2 else 'same_size_other_table')] += 1
             STATS['getopt_reset:abandoned_inside_packed_group'] += int(m.group(2))
+        m = re.search(r'forms=(\d+) endmiss=(\d+)', ans)
+        if m:
+            STATS['getopt_unterminated_vector:parses'] += 1
+            if int(m.group(1)) == 2:
+                STATS['getopt_unterminated_vector:equal_to_NULL_terminated_form'] += 1
+            if int(m.group(2)):
+                STATS['getopt_unterminated_vector:last_word_is_option_lacking_its_argument'] += 1
     STATS['path:%s:%s' % (c['kind'], path)] += 1
     if c.get('fam'):
         STATS['family:' + c['fam']] += 1
+    if 'numval' in c:
+        # the generator wrote whitespace, a sign and digits: the numeric
+        # interpretation is known, and a success must have it inside the bounds
+        lo, hi, _ = NUM_BOUNDS[c['inst']]
+        if path == 'ok':
+            STATS['numeral_after_whitespace_and_sign:accepted'] += 1
+            if not lo <= c['numval'] <= hi:
+                return ('oracle:' + c['kind'],
+                        'PARSENUM accepted %r (numeric interpretation %d) with bounds [%s, %s]: %s'
+                        % (core.unhx(c['line'].split()[2]), c['numval'], lo, hi, ans))
+        else:
+            STATS['numeral_after_whitespace_and_sign:rejected'] += 1
+            if not lo <= c['numval'] <= hi:
+                STATS['numeral_after_whitespace_and_sign:rejected_and_out_of_bounds'] += 1
     m = re.search(r'gai=(\d+)/(\d+)', ans)
     if m:
         STATS['getaddrinfo_calls'] += int(m.group(1))
@@ -934,8 +1015,8 @@ def fuzz_seed_of(line):
     if op in ('A', 'F') and t[1] != '!':
         return bytes([8 if op == 'A' else 9]) + un(t[1])[:1200]
     if op == 'T':
-        return bytes([10, int(t[1]) * 2 + int(t[2])]) + b'\0'.join(un(x)[:80] for x in t[3:])
-    if op == 'R' and len(t) - 5 <= 16:
+        return bytes([10, (int(t[1]) & 1) * 2 + int(t[2])]) + b'\0'.join(un(x)[:80] for x in t[3:])
+    if op == 'R' and len(t) - 5 <= 16 and int(t[1]) <= 1:
         return bytes([11, int(t[1]) * 2 + int(t[2]) + (min(int(t[3]), 63) << 2), int(t[4])]) + \
             b'\0'.join(un(x)[:80] for x in t[5:])
     return None
@@ -1077,6 +1158,11 @@ def run(ctx):
         ctx.note_inconclusive('no getopt loop was abandoned inside a packed group')
     if not ctx.cov.get('family:json_member_name_with_raw_NUL', 0):
         ctx.note_inconclusive('no JSON member name with a raw NUL was executed')
+    if not ctx.cov.get('getopt_unterminated_vector:last_word_is_option_lacking_its_argument', 0):
+        ctx.note_inconclusive('no unterminated argv ended in an option lacking its argument')
+    if not ctx.cov.get('numeral_after_whitespace_and_sign:rejected_and_out_of_bounds', 0) or \
+            not ctx.cov.get('numeral_after_whitespace_and_sign:accepted', 0):
+        ctx.note_inconclusive('the whitespace x sign numeral family was not executed')
     if not ctx.quick():
         # a deterministic sample of the generated corpus for the extra passes
         sample = []
@@ -1100,11 +1186,28 @@ def run(ctx):
         'humansize_parse and %d PARSENUM/PARSENUM_EX instantiations; bracketed / path / numeric-IPv4 address strings '
         '(getaddrinfo interposed, refuses non-numeric); serialised addresses: every length 0..40, every truncation, '
         'hostile namelen/family; key and passphrase files with lines around 1024/2048 bytes, NUL/CR/CRLF/no EOL; '
-        'hostile argv through two GETOPT_* tables; three-step getopt sequences (kind getopt_reset): a command line '
+        'numeral family numeral_after_whitespace_and_sign: (every one and every ordered pair of the isspace characters '
+        'space \\t \\n \\v \\f \\r, also none, CR LF TAB SP, all six, nine LF) x (sign -, +, none) x (0, 1, 5, 42, around 100, '
+        '65535, 70000, 2^31, 2^32, 2^63, 2^64, 10^20) through every instantiation; the generator knows the numeric '
+        'interpretation, so a success is held against the documented bounds [min, max] in Python as well (for size_t / '
+        'uintmax_t targets with max = UINTMAX_MAX the C comparison cannot fail: "\\n-5" accepted as 2^64-5 is caught '
+        'here); counters numeral_after_whitespace_and_sign:accepted / rejected / rejected_and_out_of_bounds; '
+        'hostile argv through three GETOPT_* tables (two of about thirty slots, one of two); every argv is parsed in '
+        'TWO forms which must agree: the main()-style vector (argc+1 pointers, argv[argc] == NULL) and a block of '
+        'exactly argc pointers with no terminator slot (a vector the program built itself: reading argv[argc] is a '
+        'heap-buffer-overflow under ASan); a third of the random vectors and a systematic set end in an '
+        'argument-taking option whose argument is missing (-f, packed -abf / -bao / 200 letters + f, --foo, --x, '
+        'a 70-byte long option) after nothing / options / "--" / an empty string, also with argc == 0, argc == 1, '
+        'argv[0] empty or itself an option; counters getopt_unterminated_vector:parses / '
+        'equal_to_NULL_terminated_form / last_word_is_option_lacking_its_argument (the driver sees the registered '
+        'string of an argument-taking option come back with optarg == NULL); three-step getopt sequences (kind getopt_reset): a command line '
         'with a packed group (lengths 2..200, argument-taking and unknown options inside, other arguments before/after) '
         'whose GETOPT loop is left after k labels for every k, the argv strings and vector then freed, optreset = 1 and a '
         'different argv parsed to the end (freed argv = use-after-free under ASan; the second parse must equal the same '
-        'parse after a completed one); counters getopt_reset:sequences / abandoned_inside_packed_group. '
+        'parse after a completed one; both vectors are exactly argc pointers; in a share of the sequences the two '
+        'parses use tables of different sizes, ~30 slots then 2 and 2 then ~30: counters '
+        'getopt_reset:table_size_changes_large_to_small / small_to_large); counters getopt_reset:sequences / '
+        'abandoned_inside_packed_group. '
         'JSON member names holding raw 0x00 bytes (counter family:json_member_name_with_raw_NUL): name = key+NUL, '
         'key+NUL+more, each proper prefix of the key+NUL, NUL inserted/replacing at each position, several NULs, for keys '
         'of length 0, 1, 2..40 (also keys needing escapes), such members first / between / after other top-level members '
